@@ -16,6 +16,31 @@ import (
 	"verif/reg"
 )
 
+// c01ReadAll is io.ReadAll with a bound on the number of calls: a Read that keeps returning (0, nil) never reaches EOF,
+// and a free-running case cannot wait for ever. A loop over a file of at most max bytes needs at most max/512+2 calls that
+// deliver something plus one that reports the end.
+func c01ReadAll(f *File, max int) ([]byte, error) {
+	var out []byte
+	buf := make([]byte, 512)
+	empty := 0
+	for calls := 0; calls < max/512+max+8; calls++ {
+		n, err := f.Read(buf)
+		out = append(out, buf[:n]...)
+		if err == io.EOF {
+			return out, nil
+		}
+		if err != nil {
+			return out, err
+		}
+		if n == 0 {
+			if empty++; empty > 3 {
+				return out, fmt.Errorf("Read keeps returning (0, nil): the end of the file is never reported")
+			}
+		}
+	}
+	return out, fmt.Errorf("Read loop did not end")
+}
+
 func init() {
 	reg.Part("C01/special", func(c *reg.Ctx) *reg.Result {
 		res := reg.NewResult(c.Part)
@@ -62,7 +87,7 @@ func init() {
 					if f, err := cl.Open(p); err != nil {
 						bad("open", "Open: %v", err)
 					} else {
-						got, err := io.ReadAll(f)
+						got, err := c01ReadAll(f, len(want))
 						res.Case(fmt.Sprintf("%v readall %s", cfg, p))
 						if err != nil || !bytes.Equal(got, want) {
 							bad("read", "Read until EOF delivered %d bytes, err %v; os.ReadFile delivers %d", len(got), err, len(want))
@@ -133,7 +158,7 @@ func init() {
 						if f, err := cl.Open("/f"); err != nil {
 							bad("open", "Open: %v", err)
 						} else {
-							got, err := io.ReadAll(f)
+							got, err := c01ReadAll(f, len(content))
 							judge("Read until EOF", len(got), got, err)
 							buf := make([]byte, len(content))
 							n, err := f.ReadAt(buf, 0)
